@@ -15,6 +15,13 @@ for n in (1, 2, 4):
                         unwind=8 * n + 8, search=20000, split=True,
                         fn=["zzAdd", "zzAdd2", "zzAddW", "zzAddW2", "zzSub", "zzSub2", "zzSubW", "zzSubW2", "zzNeg",
                             "zzIsSumEq", "zzIsSumWEq"]))
+# Knuth division on structured operands (add-back / correction steps), native only
+for n, m in ((3, 3), (4, 3), (6, 3), (6, 4), (8, 4), (5, 5), (8, 8)):
+    GROUPS.append(G("zz_div.stress.n%d.m%d.search" % (n, m), "harness/C05/zz_div.c", "h_divstress",
+                    ["src/math/zz/zz_mul.c", "src/math/zz/zz_add.c", "src/math/zz/zz_etc.c", "src/math/ww.c", "src/core/mem.c", "src/core/word.c", "src/core/u64.c", "src/core/u32.c"],
+                    defs=["N=%d" % n, "M=%d" % m], level="N", backend="native", search=40000, fn=["zzDiv", "zzMod"],
+                    note="structured operands (words from {0, 1, B-1, B/2, B/2 +- 1, 2^k, 2^k - 1}, near-multiples of the divisor) so that the "
+                         "correction steps of algorithm D are reached; against the schoolbook reference; NOT proof"))
 TRUSTED = ["harness/ref.h: reference arithmetic in a double-width type (the spec)"]
 ASSUMPTIONS = ["array lengths capped at 2^20 words in unbounded contracts (excludes only address-arithmetic overflow)",
                "little-endian target; 64-bit words unless a group says arch=32"]
